@@ -394,13 +394,18 @@ Qed.
 (* stages and pipeflow                                                                         *)
 Definition ran (st : state) : Prop := exists r a, st = newton (ri_cfg r) (ri_orc r) false a.
 
-Definition stage_post (n : netst) (res : netst * outcome * list state) : Prop :=
+Definition nopost (r : run_in) (more : list run_in) : Prop :=
+  ri_post r = NoPost /\ Forall (fun x => ri_post x = NoPost) more.
+
+Definition stage_post (r : run_in) (more : list run_in) (n : netst) (res : netst * outcome * list state) : Prop :=
   let '(n', o, sts) := res in
   n_tables n' = n_tables n /\
   (n_hyd_flag n = true -> n_hyd_flag n' = true) /\
   Forall ran sts /\
   (o = Returned -> n_conv n' = true /\ sts <> [] /\ Forall (fun st => s_conv st = true) sts) /\
-  (o <> Returned -> n_conv n' = false).
+  (o = NotConverged -> n_conv n' = false) /\
+  (* an exception of another class: the flag is False unless it was raised after the loop had converged *)
+  (o = OtherException -> nopost r more -> n_conv n' = false).
 
 Ltac fin := simpl; repeat split; intros; auto; try discriminate; try congruence;
             try (repeat constructor; auto; fail).
@@ -409,44 +414,54 @@ Ltac grab r := match goal with |- context [newton ?c ?o false ?a] =>
         assert (R : ran (newton c o false a)) by (exists r, a; reflexivity);
         remember (newton c o false a) as st end.
 
-Lemma stage_spec k reuse hu : forall more r n, stage_post n (stage k reuse hu r more n).
+Ltac nop := match goal with H : nopost _ _ |- _ => destruct H as [? ?]; congruence end.
+
+Lemma stage_spec k reuse hu : forall more r n, stage_post r more n (stage k reuse hu r more n).
 Proof.
   induction more as [|r' more IH]; intros r n.
   - destruct k; simpl.
     + destruct (ri_escape r); [|destruct reuse; fin|destruct reuse; fin].
-      grab r. destruct (s_conv st) eqn:E; [destruct (ri_rerun r)|]; destruct reuse; fin.
+      grab r. destruct (s_conv st) eqn:E; [destruct (ri_post r) eqn:EP; [destruct (ri_rerun r)| |]|];
+        destruct reuse; fin; try nop.
     + destruct hu; [fin|]. destruct (ri_escape r); [|destruct reuse; fin|destruct reuse; fin].
-      grab r. destruct (s_conv st) eqn:E; [destruct (ri_rerun r)|]; fin.
+      grab r. destruct (s_conv st) eqn:E; [destruct (ri_post r) eqn:EP; [destruct (ri_rerun r)| |]|]; fin; try nop.
     + destruct (ri_escape r); [|destruct reuse; fin|destruct reuse; fin].
       grab r. destruct (s_conv st) eqn:E; destruct reuse; fin.
   - destruct k; simpl.
     + (* hydraulics *)
       destruct (ri_escape r); [|destruct reuse; fin|destruct reuse; fin].
       grab r. destruct (s_conv st) eqn:E; [|destruct reuse; fin].
+      destruct (ri_post r) eqn:EP; [|destruct reuse; fin; try nop|destruct reuse; fin; try nop].
       destruct (ri_rerun r); [|destruct reuse; fin].
       match goal with |- context [stage KHyd reuse hu r' more ?n3] =>
         pose proof (IH r' n3) as P; destruct (stage KHyd reuse hu r' more n3) as [[n4 o] sts] end.
-      unfold stage_post in P. simpl in P. destruct P as [T [HF [RN [RT NC]]]].
+      unfold stage_post in P. simpl in P. destruct P as [T [HF [RN [RT [NC OC]]]]].
       destruct o.
       * destruct (RT eq_refl) as [C [NE FA]]. destruct reuse; simpl; rewrite C; fin;
           try (apply Forall_app; split; auto); try (destruct sts; simpl in *; congruence).
-      * destruct reuse; fin; try (apply Forall_app; split; auto); apply NC; discriminate.
-      * destruct reuse; fin; try (apply Forall_app; split; auto); apply NC; discriminate.
+      * destruct reuse; fin; try (apply Forall_app; split; auto).
+      * destruct reuse; fin; try (apply Forall_app; split; auto);
+          match goal with H : nopost _ _ |- _ => destruct H as [? HF']; inversion HF'; subst; apply OC; auto; split; auto end.
     + (* heat *)
       destruct hu; [fin|]. destruct (ri_escape r); [|destruct reuse; fin|destruct reuse; fin].
       grab r. destruct (s_conv st) eqn:E; [|fin].
+      destruct (ri_post r) eqn:EP; [|fin; try nop|fin; try nop].
       destruct (ri_rerun r); [|fin].
       match goal with |- context [stage KHeat reuse false r' more ?n3] =>
         pose proof (IH r' n3) as P; destruct (stage KHeat reuse false r' more n3) as [[n4 o] sts] end.
-      unfold stage_post in P. simpl in P. destruct P as [T [HF [RN [RT NC]]]].
+      unfold stage_post in P. simpl in P. destruct P as [T [HF [RN [RT [NC OC]]]]].
       destruct o.
       * destruct (RT eq_refl) as [C [NE FA]]. simpl; rewrite C; fin;
           try (apply Forall_app; split; auto); try (destruct sts; simpl in *; congruence).
-      * fin; try (apply Forall_app; split; auto); apply NC; discriminate.
-      * fin; try (apply Forall_app; split; auto); apply NC; discriminate.
+      * fin; try (apply Forall_app; split; auto).
+      * fin; try (apply Forall_app; split; auto);
+          match goal with H : nopost _ _ |- _ => destruct H as [? HF']; inversion HF'; subst; apply OC; auto; split; auto end.
     + destruct (ri_escape r); [|destruct reuse; fin|destruct reuse; fin].
       grab r. destruct (s_conv st) eqn:E; destruct reuse; fin.
 Qed.
+
+Definition nopost_env (e : penv) : Prop :=
+  nopost (fst (pe_hyd e)) (snd (pe_hyd e)) /\ nopost (fst (pe_heat e)) (snd (pe_heat e)).
 
 Definition pipeflow_post (e : penv) (n : netst) (res : netst * outcome * list state) : Prop :=
   let '(n', o, sts) := res in
@@ -456,9 +471,10 @@ Definition pipeflow_post (e : penv) (n : netst) (res : netst * outcome * list st
   (n_tables n' = Written -> o = Returned \/ (o = OtherException /\ n' = n)) /\
   (* any other exception: nothing was touched (init_options), or the tables are all NaN ... *)
   (o = OtherException -> n' = n \/ n_tables n' = AllNaN) /\
-  (* ... and once the set-up phase is through (net.converged = False executed) - in particular
-     when the exception is raised while the results are extracted - the net is marked not converged *)
-  (o = OtherException -> pe_options_raise e = false -> pe_setup_raise e = false ->
+  (* ... and once the set-up phase is through (net.converged = False executed) - in particular when the
+     exception is raised while the results are extracted or escapes from a Newton loop - the net is marked not
+     converged; the one exception: raised inside a stage after its loop had converged (nopost_env excludes it) *)
+  (o = OtherException -> pe_options_raise e = false -> pe_setup_raise e = false -> nopost_env e ->
      n_conv n' = false /\ n_tables n' = AllNaN).
 
 Definition after_extract (e : penv) (x : netst * outcome * list state) : netst * outcome * list state :=
@@ -470,14 +486,29 @@ Definition after_extract (e : penv) (x : netst * outcome * list state) : netst *
   | _ => x
   end.
 
+(* what the last stage hands to the extraction step *)
+Definition last_post (np : Prop) (n : netst) (res : netst * outcome * list state) : Prop :=
+  let '(n', o, sts) := res in
+  n_tables n' = n_tables n /\ Forall ran sts /\
+  (o = Returned -> n_conv n' = true /\ sts <> [] /\ Forall (fun st => s_conv st = true) sts) /\
+  (o = NotConverged -> n_conv n' = false) /\ (o = OtherException -> np -> n_conv n' = false).
+
 Lemma after_post e n0 n x :
-  n_tables n = AllNaN -> stage_post n x -> pipeflow_post e n0 (after_extract e x).
+  n_tables n = AllNaN -> last_post (nopost_env e) n x -> pipeflow_post e n0 (after_extract e x).
 Proof.
-  intros TN. destruct x as [[n' o] sts]. unfold stage_post, after_extract, pipeflow_post.
-  intros [T [HF [RN [RT NC]]]]. destruct o.
+  intros TN. destruct x as [[n' o] sts]. unfold last_post, after_extract, pipeflow_post.
+  intros [T [RN [RT [NC OC]]]]. destruct o.
   - destruct (RT eq_refl) as [C [NE FA]]. destruct (pe_extract_raise e); simpl; repeat split; auto; try discriminate.
-  - repeat split; auto; try discriminate; try congruence. apply NC; discriminate.
-  - repeat split; auto; try discriminate; try congruence; try (right; congruence). apply NC; discriminate.
+  - repeat split; auto; try discriminate; try congruence.
+  - repeat split; auto; try discriminate; try congruence; try (right; congruence).
+Qed.
+
+Lemma stage_last e k reuse hu r more n :
+  (nopost_env e -> nopost r more) -> last_post (nopost_env e) n (stage k reuse hu r more n).
+Proof.
+  intros NP. pose proof (stage_spec k reuse hu more r n) as P.
+  destruct (stage k reuse hu r more n) as [[n' o] sts]. unfold stage_post in P. unfold last_post.
+  destruct P as [T [HF [RN [RT [NC OC]]]]]. repeat split; auto; try (apply RT; auto).
 Qed.
 
 Lemma pipeflow_outcome_lemma m e n : pipeflow_post e n (pipeflow m e n).
@@ -493,42 +524,170 @@ Proof.
   match goal with |- context [set_conv ?a false ?b] => set (n1 := set_conv a false b) end.
   assert (TN : n_tables n1 = AllNaN) by reflexivity.
   destruct m.
-  - apply (after_post e n n1 _ TN). apply stage_spec.
+  - apply (after_post e n n1 _ TN). apply stage_last. intros [H _]; exact H.
   - simpl n_hyd_flag. destruct (n_hyd_flag n).
-    + apply (after_post e n n1 _ TN). apply stage_spec.
+    + apply (after_post e n n1 _ TN). apply stage_last. intros [_ H]; exact H.
     + simpl. repeat split; intros; try discriminate; try congruence; auto.
   - pose proof (stage_spec KHyd (pe_reuse e) false (snd (pe_hyd e)) (fst (pe_hyd e)) n1) as P.
     destruct (stage KHyd (pe_reuse e) false (fst (pe_hyd e)) (snd (pe_hyd e)) n1) as [[n2 o1] s1].
-    unfold stage_post in P. destruct P as [T [HF [RN [RT NC]]]]. destruct o1.
+    unfold stage_post in P. destruct P as [T [HF [RN [RT [NC OC]]]]]. destruct o1.
     + destruct (RT eq_refl) as [C [NE FA]].
       pose proof (stage_spec KHeat (pe_reuse e) (pe_heat_unsupplied e) (snd (pe_heat e)) (fst (pe_heat e)) n2) as P2.
       destruct (stage KHeat (pe_reuse e) (pe_heat_unsupplied e) (fst (pe_heat e)) (snd (pe_heat e)) n2) as [[n3 o2] s2].
       assert (TN2 : n_tables n2 = AllNaN) by congruence.
       apply (after_post e n n2 (n3, o2, (s2 ++ s1)%list) TN2).
-      unfold stage_post in *. destruct P2 as [T2 [HF2 [RN2 [RT2 NC2]]]].
+      unfold stage_post in P2. unfold last_post. destruct P2 as [T2 [HF2 [RN2 [RT2 [NC2 OC2]]]]].
       repeat split; auto; try (apply Forall_app; split; auto); try (apply RT2; auto; fail).
       all: try (intros H; destruct (RT2 H) as [C2 [NE2 FA2]]; auto).
       all: try (destruct s2; simpl; congruence).
-    + simpl. repeat split; try discriminate; auto; try (apply NC; discriminate); try congruence.
-    + simpl. repeat split; try discriminate; auto; try (apply NC; discriminate); try congruence;
-        try (right; congruence).
-  - apply (after_post e n n1 _ TN). apply stage_spec.
+      all: try (intros HO [_ H']; apply OC2; auto).
+    + simpl. repeat split; intros; try discriminate; auto; try (apply NC; auto); try congruence.
+    + simpl. repeat split; intros; try discriminate; auto; try congruence; try (right; congruence).
+      match goal with H : nopost_env e |- _ => destruct H as [H' _]; apply OC; auto end.
+  - apply (after_post e n n1 _ TN).
+    pose proof (stage_spec KBid (pe_reuse e) false [] (pe_bid e) n1) as P.
+    destruct (stage KBid (pe_reuse e) false (pe_bid e) [] n1) as [[n' o] sts] eqn:E. unfold stage_post in P. unfold last_post.
+    destruct P as [T [HF [RN [RT [NC OC]]]]]. repeat split; auto; try (apply RT; auto).
+    (* bidirectional(): nothing runs between the loop and the return *)
+    intros -> _. unfold stage in E. simpl in E.
+    destruct (ri_escape (pe_bid e)); [| |inversion E; subst; destruct (pe_reuse e); reflexivity].
+    + destruct (s_conv _); destruct (pe_reuse e); inversion E.
+    + inversion E.
   - simpl. repeat split; intros; try discriminate; try congruence; auto.
 Qed.
 
+(* refuted at full strength: an exception raised inside a stage after its loop converged (rerun_*,
+   extract_results_active_pit) is outside pipeflow's try/except; the flag stays True (tables all NaN) *)
+Lemma post_loop_exception_keeps_flag :
+  exists m e n, pe_options_raise e = false /\ pe_setup_raise e = false /\
+    let '(n', o, _) := pipeflow m e n in
+    o = OtherException /\ n_conv n' = true /\ n_tables n' = AllNaN.
+Proof.
+  set (cfg := {| c_max_iter := 1; c_meth := Constant; c_nvars := 1; c_tols := [Fin 1]; c_tol_res := Fin 1; c_nrestore := 0 |}).
+  set (r := {| ri_cfg := cfg; ri_orc := fun _ => {| o_errs := [Fin 0]; o_res := Fin 0 |}; ri_rerun := false;
+               ri_escape := NoEscape; ri_post := PostExtract |}).
+  exists MHydraulics,
+    {| pe_options_raise := false; pe_setup_raise := false; pe_unsupplied := false; pe_conn_raise := false;
+       pe_heat_unsupplied := false; pe_extract_raise := false; pe_reuse := false; pe_alpha0 := 1;
+       pe_hyd := (r, []); pe_heat := (r, []); pe_bid := r |},
+    {| n_conv := false; n_tables := AllNaN; n_hyd_flag := false; n_idata := false; n_alpha := 1 |}.
+  vm_compute. auto.
+Qed.
+
 (* _internal_data does not survive a hydraulic / bidirectional stage - however it ends, exceptions
-   escaping from the Newton loop included - unless reuse_internal_data is set *)
+   escaping from the Newton loop included - unless reuse_internal_data is set (or rerun_* raises) *)
 Lemma stage_idata k hu : forall more r n, k <> KHeat ->
+  (forall x, In x (r :: more) -> ri_post x <> PostRerun) ->
   n_idata (fst (fst (stage k false hu r more n))) = false.
 Proof.
-  induction more as [|r' more IH]; intros r n Hk.
+  induction more as [|r' more IH]; intros r n Hk NP.
   - destruct k; try congruence; simpl; destruct (ri_escape r); try reflexivity.
-    + destruct (s_conv _); [destruct (ri_rerun r)|]; reflexivity.
+    + destruct (s_conv _); [|reflexivity]. destruct (ri_post r) eqn:EP; [destruct (ri_rerun r)| |]; try reflexivity.
+      exfalso. apply (NP r); [left; auto|auto].
     + destruct (s_conv _); reflexivity.
   - destruct k; try congruence; simpl; destruct (ri_escape r); try reflexivity.
-    + destruct (s_conv _); [|reflexivity]. destruct (ri_rerun r); [|reflexivity].
+    + destruct (s_conv _); [|reflexivity].
+      destruct (ri_post r) eqn:EP; [|exfalso; apply (NP r); [left; auto|auto]|reflexivity].
+      destruct (ri_rerun r); [|reflexivity].
       match goal with |- context [stage KHyd false hu r' more ?n3] =>
         pose proof (IH r' n3 Hk) as P; destruct (stage KHyd false hu r' more n3) as [[n4 o] sts] end.
-      simpl in P. destruct o; simpl; auto.
+      simpl in P. rewrite <- P by (intros x Hx; apply NP; right; auto). destruct o; simpl; auto.
     + destruct (s_conv _); reflexivity.
+Qed.
+
+(* ------------------------------------------------------------------------------------------ *)
+(* finite results: what a converged last iteration says about the vectors themselves           *)
+Definition is_num (x : fl) : Prop := exists q, x = Fin q.
+
+Lemma change_within_num t a b : change_within t a b -> is_num a /\ is_num b.
+Proof.
+  intros [d [H _]]. destruct a, b; simpl in H; try discriminate; split; eexists; eauto.
+Qed.
+
+Lemma forall2_change_nums t : forall new old, Forall2 (change_within t) new old -> Forall is_num new /\ Forall is_num old.
+Proof.
+  induction 1 as [|a b new old H _ [IH1 IH2]]; [split; constructor|].
+  destruct (change_within_num _ _ _ H). split; constructor; auto.
+Qed.
+
+(* the update lines: a NaN in the solution of the linear system makes the error NaN *)
+Lemma upd_nth alpha : forall old x i o xi, nth_error old i = Some o -> nth_error x i = Some xi ->
+  nth_error (map2 fsub (upd alpha old x) old) i = Some (fsub (fsub o (fscale alpha xi)) o).
+Proof.
+  unfold upd. induction old as [|o0 old IH]; intros x i o xi Ho Hx; [destruct i; discriminate|].
+  destruct x as [|x0 x]; [destruct i; discriminate|]. destruct i as [|i]; simpl in *.
+  - inversion Ho; inversion Hx; subst. reflexivity.
+  - now apply IH.
+Qed.
+
+Lemma nan_in_solution_gives_nan_error alpha old x i o :
+  nth_error old i = Some o -> nth_error x i = Some NaN -> err_of (upd alpha old x, old) = NaN.
+Proof.
+  intros Ho Hx. apply nan_change_gives_nan_error.
+  pose proof (upd_nth alpha old x i o NaN Ho Hx) as H. simpl in H.
+  apply nth_error_In in H. destruct o; exact H.
+Qed.
+
+Lemma in_firstn {A} : forall n (l : list A) x, In x (firstn n l) -> In x l.
+Proof.
+  induction n as [|n IH]; intros l x H; simpl in H; [contradiction|].
+  destruct l as [|y l]; [contradiction|]. destruct H as [-> | H]; [left; auto | right; auto].
+Qed.
+
+Lemma converged_vectors_lemma cfg vorc a0 :
+  Forall is_num (c_tols cfg) -> c_nvars cfg <= length (c_tols cfg) ->
+  (forall st p, In p (v_pairs (vorc st)) -> length (fst p) = length (snd p)) ->
+  let fin := newton_v cfg vorc false a0 in
+  s_conv fin = true ->
+  exists prev, fin = step cfg (obs_of (c_nvars cfg) (vorc prev)) prev /\
+    fle (v_res (vorc prev)) (c_tol_res cfg) = true /\
+    (c_meth cfg = Automatic -> (s_alpha fin == 1)%Q) /\
+    forall p, In p (firstn (c_nvars cfg) (v_pairs (vorc prev))) -> Forall is_num (fst p) /\ Forall is_num (snd p).
+Proof.
+  intros TN LN LP fin Hc. unfold fin, newton_v in *.
+  assert (L : forall st, length (o_errs (obs_of (c_nvars cfg) (vorc st))) <= length (c_tols cfg)).
+  { intros st. unfold obs_of. simpl. rewrite map_length. pose proof (firstn_le_length (c_nvars cfg) (v_pairs (vorc st))). lia. }
+  destruct (converged_lemma cfg (fun st => obs_of (c_nvars cfg) (vorc st)) a0 L Hc) as [prev [E [_ [_ [W [R [A _]]]]]]].
+  exists prev. split; [exact E|]. split; [exact R|]. split; [exact A|].
+  intros p Hp. destruct (In_nth_error _ _ Hp) as [i Hi].
+  assert (Hm : nth_error (o_errs (obs_of (c_nvars cfg) (vorc prev))) i = Some (err_of p)).
+  { unfold obs_of. simpl. now apply map_nth_error. }
+  destruct (W i (err_of p) Hm) as [t [Ht Hle]].
+  assert (Tn : is_num t). { rewrite Forall_forall in TN. apply TN. eapply nth_error_In; eauto. }
+  destruct Tn as [q ->]. destruct p as [new old]. simpl.
+  assert (Hl : length new = length old).
+  { apply (LP prev (new, old)). eapply in_firstn; eauto. }
+  exact (forall2_change_nums q new old (error_bounds_every_component_lemma q new old Hl Hle)).
+Qed.
+
+(* ------------------------------------------------------------------------------------------ *)
+(* both damping strategies accept an iteration only through the same test (for C08)            *)
+Lemma step_conv_char cfg o st :
+  s_conv (step cfg o st) =
+  match c_meth cfg with
+  | Automatic => Qeq_bool (damp (s_alpha st) (all_true (increased (o_errs o) (prev_errs o st)))) 1 && tol_test cfg o
+  | _ => tol_test cfg o
+  end.
+Proof.
+  unfold step, finalize, prev_errs. destruct (c_meth cfg); simpl; auto.
+  destruct (Qeq_bool _ 1); reflexivity.
+Qed.
+
+Lemma damping_same_fixed_points_lemma cfgA cfgC o stA stC :
+  c_meth cfgA = Automatic -> c_meth cfgC <> Automatic ->
+  c_tols cfgA = c_tols cfgC -> c_tol_res cfgA = c_tol_res cfgC ->
+  (s_conv (step cfgA o stA) = true ->
+     s_conv (step cfgC o stC) = true /\ (s_alpha (step cfgA o stA) == 1)%Q) /\
+  (s_conv (step cfgC o stC) = true -> (s_alpha (step cfgA o stA) == 1)%Q ->
+     s_conv (step cfgA o stA) = true).
+Proof.
+  intros MA MC T R. rewrite !step_conv_char, step_alpha, MA.
+  assert (TT : tol_test cfgA o = tol_test cfgC o) by (unfold tol_test; now rewrite T, R).
+  split.
+  - intros H. apply andb_true_iff in H. destruct H as [H1 H2]. split.
+    + destruct (c_meth cfgC); congruence.
+    + now apply Qeq_bool_iff.
+  - intros H A. apply andb_true_iff. split.
+    + now apply Qeq_bool_iff.
+    + destruct (c_meth cfgC); congruence.
 Qed.
